@@ -9,7 +9,7 @@ THEOREMS = ['C03_fingerprint_factors'] + ["(main statement: harness deciders on 
 
 
 def run(res, tier, rng):
-    from ural import canonicalize_url, normalize_url, fingerprint_url
+    from ural import canonicalize_url, normalize_url, fingerprint_url, infer_redirection
 
     known = [k for k in common.load_known() if k.get("property") in ("C03", "C02") and k.get("status") == "known"]
     from ural.facebook import is_facebook_url
@@ -38,6 +38,19 @@ def run(res, tier, rng):
             return False
         tail = parts[1].split("?", 1)[0].split("#", 1)[0]
         return _dotseg.search(tail) is not None
+
+    def inference_disagrees(u, c, pa):
+        """F-N10's class: without redirection inference u and its canonical form c normalize alike, and one of them carries
+        a redirection: infer_redirection reads a spelling (escapes, control characters, dot segments, letter case of
+        'youtube.com/redirect', a missing scheme for a relative target) that canonicalize_url rewrites."""
+        if not has_n10:
+            return False
+        for uu, cc in ((u, c), (u.lower(), c.lower())):
+            a = call(normalize_url, cc, platform_aware=pa, infer_redirection=False)
+            b = call(normalize_url, uu, platform_aware=pa, infer_redirection=False)
+            if a == b and (call(infer_redirection, uu) != uu or call(infer_redirection, cc) != cc):
+                return True
+        return False
 
     def controls_matter(fn, u, **kw):
         """F-N10's class: removing the raw control characters of u changes fn(u) (they hide or reveal a redirection)."""
@@ -69,10 +82,10 @@ def run(res, tier, rng):
                         hits.setdefault("F-N7", "normalize_url(canonicalize_url(u), platform_aware=True) differs on a Facebook / YouTube url whose raw spelling the platform branch sees, e.g. %r" % u)
                     elif q and raw_unsafe(u) and known:
                         hits.setdefault("F-C7", "normalize_url(canonicalize_url(u, quoted=True)) differs on a url holding a dangling '%%' or raw sub-delimiter, e.g. %r" % u)
-                    elif embedded_dot_segments(u):
-                        hits.setdefault("F-N12", "normalize_url(canonicalize_url(u)) != normalize_url(u) on a path-embedded redirection whose embedded url holds '.' / '..' segments (canonicalize_url resolves them against the redirector's path), e.g. %r" % u)
-                    elif controls_matter(normalize_url, u, platform_aware=pa):
-                        hits.setdefault("F-N10", "normalize_url(canonicalize_url(u)) != normalize_url(u) when control characters inside u hide its redirection from infer_redirection (normalize_url resolves before it removes them), e.g. %r" % u)
+                    elif c != c.strip() and any(k.get("id") == "F-C11" for k in known):
+                        hits.setdefault("F-C11", "an escaped whitespace character other than the ASCII space at the very end of the url is decoded by canonicalize_url, and stripped as surrounding whitespace by the next function: %r -> %r" % (u, c))
+                    elif inference_disagrees(u, c, pa):
+                        hits.setdefault("F-N10", "normalize_url(canonicalize_url(u)) != normalize_url(u) although both agree without redirection inference: infer_redirection reads a spelling (escapes, control characters, dot segments, case, missing scheme) that canonicalize_url rewrites, e.g. %r" % u)
                     else:
                         res.violation("property", "normalize_url(canonicalize_url(u)) != normalize_url(u)", input=dict(url=u, quoted=q, platform_aware=pa), impl=[c, n1, n2])
                 else:
@@ -85,10 +98,10 @@ def run(res, tier, rng):
                             hits.setdefault("F-N7", "normalize_url(canonicalize_url(u), platform_aware=True) differs on a Facebook / YouTube url whose raw spelling the platform branch sees, e.g. %r" % u)
                         elif q and raw_unsafe(u) and known:
                             hits.setdefault("F-C7", "fingerprint_url(canonicalize_url(u, quoted=True)) differs on a url holding a dangling '%%' or raw sub-delimiter, e.g. %r" % u)
-                        elif embedded_dot_segments(u):
-                            hits.setdefault("F-N12", "normalize_url(canonicalize_url(u)) != normalize_url(u) on a path-embedded redirection whose embedded url holds '.' / '..' segments (canonicalize_url resolves them against the redirector's path), e.g. %r" % u)
-                        elif controls_matter(fingerprint_url, u, strip_suffix=ss, platform_aware=pa):
-                            hits.setdefault("F-N10", "normalize_url(canonicalize_url(u)) != normalize_url(u) when control characters inside u hide its redirection from infer_redirection (normalize_url resolves before it removes them), e.g. %r" % u)
+                        elif c != c.strip() and any(k.get("id") == "F-C11" for k in known):
+                            hits.setdefault("F-C11", "an escaped whitespace character other than the ASCII space at the very end of the url is decoded by canonicalize_url, and stripped as surrounding whitespace by the next function: %r -> %r" % (u, c))
+                        elif inference_disagrees(u, c, pa):
+                            hits.setdefault("F-N10", "normalize_url(canonicalize_url(u)) != normalize_url(u) although both agree without redirection inference: infer_redirection reads a spelling (escapes, control characters, dot segments, case, missing scheme) that canonicalize_url rewrites, e.g. %r" % u)
                         else:
                             res.violation("property", "fingerprint_url(canonicalize_url(u)) != fingerprint_url(u)", input=dict(url=u, quoted=q, strip_suffix=ss, platform_aware=pa), impl=[c, f1, f2])
                     if not isinstance(n2, Exc):
@@ -97,7 +110,7 @@ def run(res, tier, rng):
                         # form (normalize_url is not claimed idempotent: 'amp-amp-x.com' -> 'amp-x.com' -> 'x.com')
                         if f3 != f2 and not q and call(normalize_url, n2, platform_aware=pa) == n2 and not (pa and has_n7 and platform_branch(u, n2)):
                             if controls_matter(fingerprint_url, u, strip_suffix=ss, platform_aware=pa):
-                                hits.setdefault("F-N10", "normalize_url(canonicalize_url(u)) != normalize_url(u) when control characters inside u hide its redirection from infer_redirection (normalize_url resolves before it removes them), e.g. %r" % u)
+                                hits.setdefault("F-N10", "normalize_url(canonicalize_url(u)) != normalize_url(u) although both agree without redirection inference: infer_redirection reads a spelling (escapes, control characters, dot segments, case, missing scheme) that canonicalize_url rewrites, e.g. %r" % u)
                                 continue
                             res.violation("property", "u and normalize_url(u) have the same normalized form but different fingerprints", input=dict(url=u, strip_suffix=ss, platform_aware=pa), impl=[n2, f3, f2])
     # collision classes: spellings and irrelevant variants of one base, grouped by the weaker scheme
